@@ -19,7 +19,9 @@ RULE = ("case = (generated parent design with child slots at depth 1-2, a family
         "from the top's metadata containers. non-trivial = history with >=2 replacements one of which hits depth 2, and "
         "a removed class carried constraints, constants, an update_once block or grandchildren; distinct by case")
 ASSUMPTIONS = [
-  "designs are pure RTL from the E1 grammar (no interfaces / method ports): DESIGN.md row 8 (interfaces) is not exercised",
+  "two families: pure RTL designs from the E1 grammar, and a CL family (slots filled with method-only stores with M "
+  "constraints, components with internal caller/callee method nets, block-less structural wrappers that constrain their "
+  "children's blocks); Interface objects are not generated (DESIGN.md row 8)",
   "'built from scratch' = the same IR with the slot's class substituted (per-instance specialisation of the parent class), "
   "rendered and elaborated normally",
 ]
@@ -28,6 +30,10 @@ THOROUGH_S = 1200
 
 
 def meta(top):
+  return meta_base(top)
+
+
+def meta_base(top):
   """all queryable design metadata, normalised by name"""
   from pymtl3.dsl.Connectable import Const, Signal
   def nm(x):
@@ -52,7 +58,9 @@ def meta(top):
   m["U_U"] = sorted((bn(a), bn(b)) for a, b in uu)
   m["RD_U"] = sorted((repr(k), sorted((s_, bn(b)) for s_, b in v)) for k, v in rdu.items() if v)
   m["WR_U"] = sorted((repr(k), sorted((s_, bn(b)) for s_, b in v)) for k, v in wru.items() if v)
-  m["M"] = sorted(str(x) for x in mc)
+  def mn(x):
+    return repr(x) if hasattr(x, "_dsl") else (bn(x) if x in top.get_all_update_blocks() else getattr(x, "__name__", "?"))
+  m["M"] = sorted((mn(a), mn(b), bool(eq)) for a, b, eq in mc)
   return m
 
 
@@ -195,6 +203,7 @@ def has_once_reachable(design):
 
 
 def judge(case, stats=None):
+  if case.get("cl"): return judge_cl(case)
   rtl_sim.patch_pymtl3()
   base = case["design"]
   cur = copy.deepcopy(base)
@@ -375,6 +384,24 @@ def run_shard(ctx):
       ctx.sample({"history": case["history"], "family": sorted(case["family"]), "slots": [p for p, _ in slots(case["design"])]})
 
   ctx.run(t, "c15")
+  if ctx.violations: return
+
+  @seed(ctx.hseed(1))
+  @ctx.settings(ctx.n(480, 12000))
+  @given(cl_cases())
+  def tcl(case):
+    if ctx.out_of_time(): return
+    ctx.count()
+    v = judge_cl(case)
+    ctx.label("cl_family")
+    if any(h[0] == "st" for h in case["history"]): ctx.label("cl_method_only_slot_at_depth_2")
+    if any(h[2] in ("VCL", "VStruct") for h in case["history"]) or any(x in ("VCL", "VStruct") for x in case["x"]):
+      ctx.label("cl_internal_method_nets_or_blockless_constraints")
+    if v is None and len(case["history"]) >= 2 and any(h[0] == "st" for h in case["history"]):
+      ctx.nontriv(["cl", case["x"], case["st"], case["history"]])
+    ctx.judge(case, v)
+    if ctx.evaluations % 53 == 0: ctx.sample({"cl_slots": case["x"], "store": case["st"], "history": case["history"]})
+  ctx.run(tcl, "c15cl")
 
 
 def replay(case):
@@ -382,3 +409,189 @@ def replay(case):
     v = judge(case)
     if v is not None: return v
   return None
+
+
+# ---------------------------------------------------------------------------------------------------
+# CL family: slots filled with method-port / cycle-level components (histories of replacements)
+# ---------------------------------------------------------------------------------------------------
+
+CL_LIB = '''
+from pymtl3 import *
+from pymtl3.dsl import CalleePort, CallerPort, method_port
+
+class StoreBypass( Component ):
+  @method_port
+  def put( s, v ): s.val = v
+  @method_port
+  def get( s ): return s.val
+  def construct( s ):
+    s.val = 0
+    s.add_constraints( M( s.put ) < M( s.get ) )
+
+class StorePipe( Component ):
+  @method_port
+  def put( s, v ): s.val = v
+  @method_port
+  def get( s ): return s.val
+  def construct( s ):
+    s.val = 0
+    s.add_constraints( M( s.get ) < M( s.put ) )
+
+class StoreCount( Component ):
+  @method_port
+  def put( s, v ): s.val = (v + 1) & 0xff
+  @method_port
+  def get( s ): return s.val
+  def construct( s ):
+    s.val = 0
+    s.add_constraints( M( s.put ) < M( s.get ) )
+
+class VPass( Component ):
+  def construct( s ):
+    s.in_ = InPort( Bits8 ); s.out = OutPort( Bits8 )
+    @update
+    def up(): s.out @= s.in_ + 1
+
+class VNet( Component ):
+  def construct( s ):
+    s.in_ = InPort( Bits8 ); s.out = OutPort( Bits8 )
+    s.out //= s.in_
+
+class VReg( Component ):
+  def construct( s ):
+    s.in_ = InPort( Bits8 ); s.out = OutPort( Bits8 )
+    @update_ff
+    def ff(): s.out <<= s.in_
+
+class VCL( Component ):
+  """only value ports cross the boundary; inside: a method-only store driven through caller ports"""
+  def construct( s ):
+    s.in_ = InPort( Bits8 ); s.out = OutPort( Bits8 )
+    s.st  = StoreBypass()
+    s.put = CallerPort(); s.get = CallerPort()
+    s.put //= s.st.put
+    s.get //= s.st.get
+    @update_once
+    def wr(): s.put( int(s.in_) )
+    @update_once
+    def rd(): s.out @= s.get()
+
+class VStruct( Component ):
+  """no update block of its own, but it orders the blocks of its children"""
+  def construct( s ):
+    s.in_ = InPort( Bits8 ); s.out = OutPort( Bits8 )
+    s.a = VPass(); s.b = VPass()
+    s.a.in_ //= s.in_; s.b.in_ //= s.a.out; s.out //= s.b.out
+    s.add_constraints( U( list(s.a.get_update_blocks())[0] ) < U( list(s.b.get_update_blocks())[0] ) )
+
+class Wrap( Component ):
+  def construct( s, St ):
+    s.put = CalleePort(); s.get = CalleePort()
+    s.st  = St()
+    s.st.put //= s.put
+    s.st.get //= s.get
+
+class Top( Component ):
+  def construct( s, X, St, nx ):
+    s.in_ = InPort( Bits8 ); s.out = OutPort( Bits8 ); s.out2 = OutPort( Bits8 )
+    s.xs = [ X[i]() for i in range(nx) ]
+    s.xs[0].in_ //= s.in_
+    for i in range(1, nx): s.xs[i].in_ //= s.xs[i-1].out
+    s.out //= s.xs[nx-1].out
+    s.w = Wrap( St )
+    @update_once
+    def up_put(): s.w.put( int(s.in_) )
+    @update_once
+    def up_get(): s.out2 @= s.w.get()
+'''
+
+V_FAMILY = ["VPass", "VNet", "VReg", "VCL", "VStruct"]
+ST_FAMILY = ["StoreBypass", "StorePipe", "StoreCount"]
+
+
+@st.composite
+def cl_cases(draw):
+  nx = draw(st.integers(1, 3))
+  init_x = [draw(st.sampled_from(V_FAMILY)) for _ in range(nx)]
+  init_st = draw(st.sampled_from(ST_FAMILY))
+  hist = []
+  for _ in range(draw(st.integers(1, 5))):
+    if draw(st.integers(0, 2)) == 0:
+      hist.append(["st", 0, draw(st.sampled_from(ST_FAMILY)), draw(st.booleans()), draw(st.booleans())])
+    else:
+      hist.append(["x", draw(st.integers(0, nx - 1)), draw(st.sampled_from(V_FAMILY)), draw(st.booleans()), draw(st.booleans())])
+  ins = [draw(st.integers(0, 255)) for _ in range(draw(st.integers(2, 5)))]
+  return {"cl": True, "nx": nx, "x": init_x, "st": init_st, "history": hist, "ins": ins}
+
+
+def meta_cl(top):
+  m = meta_base(top)
+  def nm(x):
+    try: return repr(x) if hasattr(x, "_dsl") else getattr(x, "__name__", str(type(x)))
+    except Exception: return "?"
+  m["method_nets"] = sorted((nm(w) if w is not None else "None", sorted(nm(x) for x in net)) for w, net in top.get_all_method_nets())
+  return m
+
+
+def judge_cl(case):
+  import hashlib, importlib.util, os, sys
+  rtl_sim.patch_pymtl3()
+  modname = f"vfc15cl_{os.getpid()}"
+  path = os.path.join(os.getcwd(), modname + ".py")
+  with open(path, "w") as f: f.write(CL_LIB)
+  spec = importlib.util.spec_from_file_location(modname, path)
+  mod = importlib.util.module_from_spec(spec); sys.modules[modname] = mod
+  try:
+    spec.loader.exec_module(mod)
+    from pymtl3.passes.PassGroups import DefaultPassGroup
+    from pymtl3.datatypes import Bits
+
+    def build(xs, stn):
+      t = mod.Top([getattr(mod, c) for c in xs], getattr(mod, stn), len(xs))
+      t.elaborate()
+      return t
+    xs, stn = list(case["x"]), case["st"]
+    try:
+      top = build(xs, stn)
+    except Exception as ex:
+      return _exc("cl:elaborate_base", ex)
+    removed_total = {}
+    for step, (slot, idx, newc, with_obj, check) in enumerate(case["history"]):
+      obj = top.xs[idx] if slot == "x" else top.w.st
+      removed = removed_objects(obj)
+      cls = getattr(mod, newc)
+      try:
+        if with_obj: top.replace_component_with_obj(obj, cls(), check=check)
+        else: top.replace_component(obj, cls, check=check)
+      except Exception as ex:
+        return _exc("cl:replace_step", ex, f"step {step} {slot}[{idx}] -> {newc}")
+      removed_total.update(removed)
+      if slot == "x": xs[idx] = newc
+      else: stn = newc
+      ftop = build(xs, stn)
+      try:
+        ma = meta_cl(top)
+      except Exception as ex:
+        return _exc("cl:meta_query_on_mutated_design", ex, f"after step {step} ({slot}[{idx}] -> {newc})")
+      mb = meta_cl(ftop)
+      for key in ma:
+        if ma[key] != mb[key]:
+          extra = [x for x in ma[key] if x not in mb[key]][:3]; missing = [x for x in mb[key] if x not in ma[key]][:3]
+          return (f"cl:meta:{key}", f"after step {step} ({slot}[{idx}] -> {newc}): only in mutated {extra}; only in fresh {missing}")
+      bad = sweep(top, removed_total)
+      if bad: return (f"cl:stale:{bad[0][0].split('.')[-1]}", f"after step {step}: {bad[:3]}")
+    ftop = build(xs, stn)
+    try:
+      top.apply(DefaultPassGroup()); ftop.apply(DefaultPassGroup())
+      for t, v in enumerate(case["ins"]):
+        for tp in (top, ftop): tp.in_ @= Bits(8, v)
+        top.sim_tick(); ftop.sim_tick()
+        a = (int(top.out), int(top.out2)); b = (int(ftop.out), int(ftop.out2))
+        if a != b: return ("cl:sim:mutated_differs_from_fresh", f"tick {t}: (out, out2) = {a} vs {b}")
+    except Exception as ex:
+      return _exc("cl:simulate", ex)
+    return None
+  finally:
+    sys.modules.pop(modname, None)
+    try: os.remove(path)
+    except OSError: pass
